@@ -1,0 +1,23 @@
+//go:build verif
+
+// Contracts for package rep (comment-only; read by /verif/govc).
+
+package rep
+
+//@ struct pipe
+//@   immutable: s p sendQ closeQ
+//@
+//@ struct socket
+//@   lock Mutex level 20
+//@   guarded_by Mutex: closed ttl sendQLen contexts
+//@   immutable: master recvQ
+//@
+//@ struct context
+//@   guarded_by s.Mutex: closed recvWait recvExpire recvPipe sendExpire bestEffort backtrace
+//@   immutable: s closeQ
+//@
+//@ func NewProtocol
+//@   private
+//@
+//@ func (*context).close
+//@   holds c.s.Mutex
